@@ -59,6 +59,18 @@ func main() {
 			fmt.Fprintf(os.Stderr, "no replay for property %q\n", v.Property)
 			os.Exit(2)
 		}
+		// a witness recorded in a fresh-process variant child: re-establish the variant's
+		// prelude in this (fresh) process, then replay the inner case
+		var wrapped struct {
+			Variant string          `json:"variant"`
+			Case    json.RawMessage `json:"case"`
+		}
+		if json.Unmarshal(v.Case, &wrapped) == nil && wrapped.Variant != "" && len(wrapped.Case) > 0 && string(wrapped.Case) != "null" {
+			if core.ApplyVariant != nil {
+				core.ApplyVariant(wrapped.Variant)
+			}
+			v.Case = wrapped.Case
+		}
 		bad, msg, err := p.Replay(v.Stage, v.Case)
 		if err != nil {
 			fmt.Printf("INCONCLUSIVE property=%s reason=replay:%v\n", v.Property, err)
